@@ -243,9 +243,18 @@ def get_settings(st, set_keys):
             'project_leaders': list(LEADER_SETS[ls]),
             'need_author_approval': bool(need)}
     pao = {}
+    decoy = (peers + leaders) % 2
+    # the decoy is listed before or after the author's own entry (the
+    # settings loader walks the mapping in file order), and the author may
+    # be listed with an unrelated bypass only
+    decoy_first = decoy and (peers + 2 * leaders + need) % 4 < 2
+    if decoy_first:
+        pao[PEER1] = list(BYPASS)       # decoy: must not help `author`
     if set_keys:
         pao[AUTHOR] = list(set_keys)
-    if (peers + leaders) % 2:
+    elif decoy:
+        pao[AUTHOR] = ['bypass_jira_check']
+    if decoy and not decoy_first:
         pao[PEER1] = list(BYPASS)       # decoy: must not help `author`
     if pao:
         over['pr_author_options'] = pao
